@@ -15,6 +15,8 @@ pub fn run_check(prop: &str, _args: &[String]) -> i32 {
         "C10" => cow_check(),
         "C08" => alloc_check(),
         "C11" => discard_check(),
+        "C13" => crate::enumchk::c13(),
+        "C15" => crate::enumchk::c15(),
         _ => {
             eprintln!("unknown property {}", prop);
             2
